@@ -6587,6 +6587,11 @@ fn regular_serialize_vec<T: Serialize>(
     let l = items.len();
     serializer.write_usize(l)?;
     if std::mem::size_of::<T>() == 0 {
+        // Zero-sized in memory does not imply zero-sized when serialized
+        // (an enum with a single field-less variant still writes its discriminant).
+        for item in items {
+            item.serialize(serializer)?;
+        }
         return Ok(());
     }
 
